@@ -91,7 +91,14 @@ var junk = []any{nil, true, 0, -1, 1.5, 1e308, 9223372036854775807.0, "", "x", [
 	// valid words in the wrong place: implicit columns, functions and mutators that do not fit the column type
 	"_version", "_uuid", "<", ">=", "includes", "excludes", "!=", "+=", "delete", "insert", "%=",
 	[]any{"named-uuid", 1}, []any{"uuid", nil}, []any{"uuid", []any{"x"}}, []any{"named-uuid", map[string]any{}}, []any{"uuid", "not-a-uuid"},
-	[]any{"_version", "==", []any{"uuid", "00000000-0000-4000-8000-000000000001"}}, []any{"_uuid", "<", 1}}
+	[]any{"_version", "==", []any{"uuid", "00000000-0000-4000-8000-000000000001"}}, []any{"_uuid", "<", 1},
+	// well-formed values of the wrong shape for where they land: empty set and map, fractions
+	[]any{"set", []any{}}, []any{"map", []any{}}, 0.5, -0.5, 1e-9,
+	// whole conditions and mutations over real columns: ordering functions against an empty set or a
+	// set, arithmetic with fractional or zero operands on integer columns
+	[]any{"oint", "<", []any{"set", []any{}}}, []any{"ostr", ">=", []any{"set", []any{}}}, []any{"num", "<=", []any{"set", []any{}}},
+	[]any{"ratio", ">", []any{"set", []any{1.5, 2.5}}}, []any{"oint", ">", []any{"set", []any{1, 2}}}, []any{"obool", "<", true},
+	[]any{"num", "%=", 0.5}, []any{"num", "/=", 0.25}, []any{"nums", "/=", 0.5}, []any{"nums", "%=", 0}, []any{"ratio", "/=", 0}, []any{"oint", "/=", 0.5}}
 
 // corrupt applies 1-2 structural corruptions to a deep copy of ops and says what it did.
 func corrupt(r *simrt.Rand, ops []Op) ([]any, string) {
@@ -102,10 +109,10 @@ func corrupt(r *simrt.Rand, ops []Op) ([]any, string) {
 		if len(cp) == 0 {
 			break
 		}
-		switch k := r.Intn(12); {
+		switch k := r.Intn(14); {
 		case k == 0:
 			// degenerate arithmetic on some integer column
-			cp = append(cp, map[string]any{"op": "mutate", "table": "Root", "where": []any{}, "mutations": []any{[]any{"num", []string{"/=", "%="}[r.Intn(2)], 0}}})
+			cp = append(cp, map[string]any{"op": "mutate", "table": "Root", "where": []any{}, "mutations": []any{[]any{[]string{"num", "num", "nums", "oint"}[r.Intn(4)], []string{"/=", "%="}[r.Intn(2)], []any{0, 0, 0.5, -0.25, 1e-9}[r.Intn(5)]}}})
 			what = append(what, "divide-by-zero")
 		case k == 1:
 			// operations that need optional members, without them
@@ -114,6 +121,24 @@ func corrupt(r *simrt.Rand, ops []Op) ([]any, string) {
 		case k == 2:
 			cp = []any{}
 			what = append(what, "no-operations")
+		case k == 4 || k == 5:
+			// a well-formed but ill-typed condition or mutation added to an operation on Root
+			conds := []any{
+				[]any{"oint", "<", []any{"set", []any{}}}, []any{"ostr", ">=", []any{"set", []any{}}}, []any{"num", "<=", []any{"set", []any{}}},
+				[]any{"ratio", ">", []any{"set", []any{1.5, 2.5}}}, []any{"oint", ">", []any{"set", []any{1, 2}}}, []any{"obool", "<", true},
+				[]any{"_version", "==", []any{"uuid", "00000000-0000-4000-8000-000000000001"}}, []any{"tags", "<", "x"}, []any{"props", ">", []any{"map", []any{}}},
+				[]any{"oint", "includes", []any{"set", []any{}}}, []any{"name", "<", "n1"}, []any{"wpeer", "<", []any{"set", []any{}}},
+			}
+			muts := []any{
+				[]any{"num", "%=", 0.5}, []any{"num", "/=", 0.25}, []any{"nums", "/=", 0.5}, []any{"nums", "%=", 0}, []any{"ratio", "/=", 0},
+				[]any{"oint", "/=", 0.5}, []any{"oint", "+=", []any{"set", []any{}}}, []any{"tags", "+=", 1}, []any{"props", "delete", 1}, []any{"name", "insert", "x"},
+			}
+			op := map[string]any{"op": []string{"select", "update", "delete", "mutate"}[r.Intn(4)], "table": "Root", "where": []any{conds[r.Intn(len(conds))]}, "row": map[string]any{"rank": 1}, "mutations": []any{[]any{"rank", "+=", 1}}}
+			if k == 5 {
+				op = map[string]any{"op": "mutate", "table": "Root", "where": []any{}, "mutations": []any{muts[r.Intn(len(muts))]}}
+			}
+			cp = append(cp, op)
+			what = append(what, "ill-typed-"+[]string{"condition", "mutation"}[k-4])
 		case k == 3:
 			// an operation that is not an object
 			var j any
